@@ -9,7 +9,7 @@ package poll
 // reported delivered exactly when that connection's channel accepted it; a notification is only delivered
 // to the connection with the addressed id; Done is called exactly once on every path.
 //@ func (*PollWorker).Process
-//@ props C18
+//@ props C18 C08
 //@ nopanic C13 C18
 //@ use-contracts get
 //@ funcvalue ^mesg\.Done$ records done
@@ -75,3 +75,7 @@ package poll
 //@ abstract-calls ^(add|rmv|Process)$
 //@ requires w != nil && w.metrics != nil && w.connections.conns != nil
 //@ site call rmv assert match
+// whenever the worker waits, it also waits for connects and disconnects: a listener that leaves while the worker
+// is idle is unregistered before the next message is handed out (a message put into the buffer of a dead
+// connection would be reported delivered)
+//@ site select assert [C18 C08] selects(w.connect) && selects(w.disconnect)
